@@ -287,6 +287,10 @@ impl Family for FaultFamily {
                         format!("stream of {} bytes ends after {} bytes (message ends {:?}): run_on returned {}, expected {:?}", self.stream.len(), k, self.ends, o.res.short(), want),
                     ));
                 }
+                // whatever was received completely was routed exactly as in the undisturbed run
+                if let Some((i, (_, cb))) = o.log.iter().enumerate().find(|(i, (_, cb))| self.base_log.get(*i) != Some(cb)) {
+                    return Err(Violation::new("eof-callbacks-differ", format!("stream ends after {} bytes: callback {} is {}, the undisturbed run made {}", k, i, cb_short(cb), self.base_log.get(i).map(cb_short).unwrap_or_else(|| "none".into()))));
+                }
                 if let Some(c) = cbs {
                     if o.log.len() != c {
                         return Err(Violation::new(
@@ -367,6 +371,9 @@ impl FaultFamily {
         if o.sim.ops.len() <= at {
             return Err(Violation::new("harness:fault-not-reached", format!("{}: only {} ops performed", what, o.sim.ops.len())));
         }
+        if let Some((i, (_, cb))) = o.log.iter().enumerate().find(|(i, (_, cb))| self.base_log.get(*i) != Some(cb)) {
+            return Err(Violation::new("callbacks-differ-before-the-fault", format!("{}: callback {} is {}, the undisturbed run made {}", what, i, cb_short(cb), self.base_log.get(i).map(cb_short).unwrap_or_else(|| "none".into()))));
+        }
         for (ops_at_entry, cb) in &o.log {
             if *ops_at_entry > at {
                 return Err(Violation::new(
@@ -442,6 +449,28 @@ fn specs(quick: bool) -> Vec<ConvSpec> {
                 });
             }
         }
+        // commands that are routed by their text and commands the library answers itself
+        v.push(ConvSpec {
+            label: format!("init-db + USE + SELECT @@ + field list + query + ping + quit ({})", mname),
+            cmds: vec![
+                ClientCmd::new(with_byte(COM_INIT_DB, b"db1")),
+                q(b"USE `db2`"),
+                q(b"SELECT @@max_allowed_packet"),
+                ClientCmd::new(with_byte(COM_FIELD_LIST, b"t\0")),
+                q(b"go"),
+                q(b"use db3;"),
+                ping(),
+                quit(),
+            ],
+            progs: vec![Arc::new(programs[2].1.clone())],
+            fail_at: None,
+            auth_reject: false,
+            uniform_read: ur,
+            write_cap: wc,
+            cuts: vec![],
+            lockstep: ls,
+            sparse: false,
+        });
         // prepared statement with long data, close, quit
         let blk = exec_block(
             &[
